@@ -30,7 +30,10 @@ NOTES = [
     "IntroducerService built without its constructor: _announcements, _subscribers, _debug_counts set directly; subscribers are recorders of callRemote",
 ]
 _process = hlib.strip_logs(IntroducerClient._process_announcement)
-_got = hlib.strip_logs(IntroducerClient.got_announcements)
+# got_announcements is run UNSTRIPPED: the arguments of its log call in the exception handler are computed from the (possibly
+# malformed) announcement tuple and can raise themselves; the tuples are concrete, so eager formatting costs nothing
+_got = IntroducerClient.got_announcements
+hlib.encoded(IntroducerClient.got_announcements)
 _srv_publish = hlib.strip_logs(server_mod.IntroducerService._publish)
 hlib.encoded(IntroducerClient._deliver_announcements, common_mod.unsign_from_foolscap)
 
@@ -238,6 +241,8 @@ BATCH_CLASS = "batch-aborted-by-exception-other-than-BadSignature"
 _KEYS = [KEY_A, KEY_B, KEY_C]
 # kinds of announcement tuples: 0 well-formed (verify outcome symbolic), 1.. malformed encodings
 KIND_OK, KIND_NOSIG, KIND_SIGPREFIX, KIND_KEYPREFIX, KIND_KEYGARBAGE, KIND_BODY = 0, 1, 2, 3, 4, 5
+KIND_UNSIGNED, KIND_STRKEY, KIND_SHORT, KIND_INTKEY, KIND_NOTTUPLE = 6, 7, 8, 9, 10
+NKINDS = 11
 
 
 def _ann_t(i, kind):
@@ -254,17 +259,27 @@ def _ann_t(i, kind):
         key = b"v0-" + b"a" * 10                     # not a 32-byte key
     elif kind == KIND_BODY:
         msg = b"{not json" + bytes([48 + i])         # signed by the key owner, but not a JSON document
+    elif kind == KIND_UNSIGNED:
+        return (msg, None, None)                     # old-style unsigned announcement
+    elif kind == KIND_STRKEY:
+        key = key.decode("ascii")                    # key is text instead of bytes
+    elif kind == KIND_SHORT:
+        return (msg, sig)                            # tuple shorter than 3
+    elif kind == KIND_INTKEY:
+        key = 12345                                  # key is not a string at all
+    elif kind == KIND_NOTTUPLE:
+        return None
     return (msg, sig, key)
 
 
 # built once at import time (concrete data; building them under CrossHair's tracing costs ~0.4 s per path)
-_ANN_T = [[_ann_t(i, kind) for kind in range(6)] for i in range(3)]
+_ANN_T = [[_ann_t(i, kind) for kind in range(NKINDS)] for i in range(3)]
 
 
 def _run_batch(kinds, valids):
     c = _mk_client(True)
     batch = [_ANN_T[i][kinds[i]] for i in range(len(kinds))]
-    by_msg = dict((batch[i][0], i) for i in range(len(batch)))
+    by_msg = dict((_ANN_T[i][KIND_BODY if kinds[i] == KIND_BODY else KIND_OK][0], i) for i in range(len(batch)))
     ideal = _IdealEd25519(lambda m, k, s: valids[by_msg[m]])
     saved = common_mod.ed25519
     common_mod.ed25519 = ideal
@@ -289,7 +304,7 @@ def _batch_verdict(kinds, valids, c, batch, ideal, exc):
                 if exc is not None:
                     return "a bad announcement (%s) stopped a good one in the same batch from being processed" % (type(exc).__name__,)
                 return "a good announcement was not delivered"
-            if got[0][1] != _json.loads(batch[i][0].decode("utf-8")):
+            if got[0][1] != _json.loads(_ANN_T[i][KIND_OK][0].decode("utf-8")):
                 return "delivered body differs from the signed message"
             ent = c._inbound_announcements.get(("storage", _KEYS[i]))
             if ent is None or ent[1] != _KEYS[i]:
@@ -318,7 +333,7 @@ def h_batch_bad_signature(v0: bool, v1: bool, v2: bool) -> bool:
 
 def h_batch_malformed(k0: int, k1: int, k2: int, v0: bool, v1: bool, v2: bool) -> bool:
     """
-    pre: 0 <= k0 <= 5 and 0 <= k1 <= 5 and 0 <= k2 <= 5
+    pre: 0 <= k0 < NKINDS and 0 <= k1 < NKINDS and 0 <= k2 < NKINDS
     pre: B.get("kinds") is None or (k0 in B["kinds"] and k1 in B["kinds"] and k2 in B["kinds"])
     post: _ == True
     """
@@ -415,4 +430,69 @@ def h_server_publish(stored: bool, old_has_seq: bool, old_seq: int, new_kind: in
             return "stored announcement changed"
         if not stored and ent is not None:
             return "rejected announcement stored"
+    return True
+
+
+# ---- one key, one identity: spellings of the same verifying key must not open a second index entry ----------------
+
+def _alias_last_char(b32):
+    """same 32 bytes, non-canonical last character: 52 base32 characters carry 260 bits, the 4 spare bits of the last one set to non-zero"""
+    alphabet = b"abcdefghijklmnopqrstuvwxyz234567"
+    v = alphabet.index(b32[-1:])
+    return b32[:-1] + alphabet[v | 1:(v | 1) + 1]
+
+
+_B32_A = base32.b2a(b"A" * 32)
+SPELLINGS = [KEY_A,                                   # 0 canonical
+             b"v0-" + _B32_A.upper(),                 # 1 upper-cased base32
+             KEY_A + b" ",                            # 2 trailing blank
+             KEY_A + b"\n",                           # 3 trailing newline
+             b"v0- " + _B32_A,                        # 4 blank after the version prefix
+             b"V0-" + _B32_A,                         # 5 upper-cased version prefix
+             b"v0-" + _alias_last_char(_B32_A),       # 6 non-canonical last character (spare bits set)
+             b"v0-" + _B32_A[:26].upper() + _B32_A[26:]]   # 7 mixed case
+_MSG_SEQ = {1: _msg(0, 1), 2: _msg(0, 2)}
+_SIG = b"v0-" + base32.b2a(b"S" * 64)
+
+
+def h_key_identity(spelling: int, alt_first: bool) -> bool:
+    """
+    pre: 0 <= spelling < len(SPELLINGS)
+    post: _ == True
+    """
+    c = _mk_client(True)
+    newer = (_MSG_SEQ[2], _SIG, KEY_A)                       # seqnum 2 under the canonical spelling
+    older = (_MSG_SEQ[1], _SIG, SPELLINGS[spelling])         # replay of seqnum 1, key spelled differently
+    batch = [older, newer] if alt_first else [newer, older]
+    # ideal signatures keyed on the DECODED key: both messages were signed by the holder of key bytes A*32
+    ideal = _IdealEd25519(lambda m, k, s: k == b"A" * 32)
+    saved = common_mod.ed25519
+    common_mod.ed25519 = ideal
+    try:
+        try:
+            _got(c, batch)
+        except Exception as e:
+            return "got_announcements raised %s" % (type(e).__name__,)
+    finally:
+        common_mod.ed25519 = saved
+    # which verifying key (raw bytes) vouched for each message
+    signer = {}
+    for (raw, sig, msg, ok) in ideal.calls:
+        if ok:
+            signer[msg] = raw
+    entries = {}
+    for (service, key_s), (ann, k2, when) in c._inbound_announcements.items():
+        msg = _MSG_SEQ.get(ann.get("seqnum"))
+        if msg is None or msg not in signer:
+            return "stored announcement was never verified"
+        entries.setdefault((service, signer[msg]), []).append(key_s)
+    for (service, raw), names in entries.items():
+        if len(names) > 1:
+            return "announcements verified by one and the same key are stored under %d different identities" % len(names)
+    seqs = [ann["seqnum"] for (key_s, ann) in c.delivered]
+    for a in range(len(seqs) - 1):
+        if not (seqs[a] < seqs[a + 1]):
+            return "a replay with a lower sequence number was delivered after a newer announcement of the same key"
+    if 2 not in seqs:
+        return "the genuine newest announcement was not delivered"
     return True
